@@ -753,7 +753,7 @@ func plant(t *rapid.T, cfg *gen.TreeCfg, tree *gen.Tree, name string, max int) {
 
 type pool struct {
 	real, bothCont, oneSide, look []string
-	names                        []string
+	names                         []string
 }
 
 func buildPool(a, b *gen.Tree) *pool {
@@ -865,10 +865,9 @@ func genPath(t *rapid.T, pl *pool, name string, prev []string) string {
 	case w < 16 && len(pl.look) > 0:
 		return pick(t, pl.look, name)
 	case w < 19:
-		if len(pl.names) > 0 && rapid.IntRange(0, 3).Draw(t, "wildname") > 0 {
-			return "**" + sep + pick(t, pl.names, name)
-		}
-		return "**" + sep + rapid.SampledFrom(keys).Draw(t, "wildkey")
+		// mostly a name that occurs in the trees, now and then any key of the alphabet
+		cand := append(append(append(append([]string{}, pl.names...), pl.names...), pl.names...), keys...)
+		return "**" + sep + pick(t, cand, name)
 	}
 	// absent: a real path continued by one more segment, or arbitrary segments
 	if len(pl.real) > 0 && rapid.Bool().Draw(t, "extend") {
@@ -882,6 +881,9 @@ func genCase(t *rapid.T) Case {
 	var a *gen.Tree
 	if rapid.IntRange(0, 7).Draw(t, "toplist") == 0 {
 		a = gen.GenList(t, cfg, cfg.Depth)
+		if len(a.Vals) == 0 {
+			a.Vals = append(a.Vals, gen.GenObj(t, cfg, cfg.Depth-1))
+		}
 	} else {
 		a = gen.GenObj(t, cfg, cfg.Depth)
 	}
@@ -914,11 +916,11 @@ func genCase(t *rapid.T) Case {
 
 var subScope = runlog.Register(&runlog.Sub[Case]{
 	Name: "field-scope",
-	Rule: "constructive: tree A over keys {a,b,c,d} (now and then 0/1, giving mixed nodes; 1 in 8 a top-level list) with one key name planted as a container in 1-2 further objects; B a mutation of A (children dropped, replaced, changed, added; 1 in 8 independent); global policy one of 5; 1-3 field options, policy one of merge/replace/append/prepend, path taken from the paths of A and B (container in both 40%, any node incl. primitives and list indices 15%, in one tree only 10%), look-alikes (real paths with index segments dropped, bare last components 15%), `**.name` 15%, absent paths 5%, later options biased to repeat, extend or enclose an earlier path; options given as PathSep(\".\"), global, fields. Oracle: field-policy model (longest named prefix, later wins ties) on the shared merge model; outside the named subtrees result == library merge under the global policy alone; a named subtree == library merge of the two subtrees under the named policy as global (ancestors merged, one policy throughout the subtree). Non-trivial: some option names a path that is a container in both trees (for `**.name`: some such node), its policy differs from the global one, the same last component occurs at another depth (for `**`: at two depths), and the result differs from the global-only merge. Distinct: hash of the whole case.",
+	Rule: "constructive: tree A over keys {a,b,c,d} (now and then 0/1, giving nodes with a list part next to named keys; 1 in 8 a non-empty top-level list) with one key name planted as a container in 1-2 further objects, so that the name occurs at several depths; B a mutation of A (children dropped, replaced, changed, added; 1 in 8 an independent tree), sometimes with the name planted once more; B given as generic data or *Config; global policy one of 5; 1-3 field options, policy one of merge/replace/append/prepend, path taken from the paths of A and B (container in both trees 40%, any node incl. primitives and list indices 15%, present in one tree only 10%), look-alikes (real paths with their index segments dropped, bare last components; 15%), `**.name` 15%, absent paths 5%, half of the picks restricted to paths ending in the planted name; later options repeat (1/6) or extend/enclose (1/6) an earlier path; options are given as PathSep(\".\"), global policy, field options. Oracle: (1) field-policy model (longest named prefix wins, later option wins ties, `**.name` matches at any depth) on the shared merge model; values inside a subtree where a `**` option and an exact option with another policy compete are not asserted (statement silent on precedence); (2) after erasing every named subtree the result equals the library's merge under the global policy alone; (3) each named subtree (up to 6 instances of a `**.name`) equals the library's merge of the two subtrees with the named policy as global one, provided its ancestors were merged (no dictionary replaced, lists merged index-wise on the way), B has no primitive in the way and one policy governs the whole subtree. Non-trivial: some option names a path that is a container in both trees (for `**.name`: some node under that name), its policy differs from the global one, the same last component occurs at another depth (for `**`: at two depths or more), and the result differs from the global-only merge. Distinct: hash of the whole case.",
 	Gen:  genCase,
 	Run:  runCase,
 })
 
-func TestFieldScope(t *testing.T) { subScope.Check(t, 300000, 10000000) }
+func TestFieldScope(t *testing.T) { subScope.Check(t, 200000, 10000000) }
 
 func TestReplay(t *testing.T) { runlog.ReplayMain(t) }
